@@ -277,6 +277,9 @@ func (w *World) runRequest(t *Task, rs *ReqSpec) {
 	t.Req = rs
 	t.EntryKind = rs.Kind
 	t.Rec = newRecorder()
+	if rs.Kind == "handler" || rs.Kind == "send" {
+		t.authOK, t.blockOK = true, true
+	}
 	a := srv.actorByName(rs.Actor)
 	if a == nil && rs.Kind != "handler" {
 		panic("sim: unknown actor " + rs.Actor)
